@@ -416,7 +416,7 @@ def gen_program(rng, case, focus=None, allow_infeasible=True):
         return sel, idx
 
     kinds = ['t_cc', 't_cp', 't_cp', 't_cp', 't_pc', 't_pp', 'remove', 'fill', 'newc', 'dilute', 'solution',
-             'solution_c', 'solution_from']
+             'solution_c', 'solution_from', 'fill_big']
     if focus == 'remove':
         kinds += ['remove'] * 5 + ['t_cp'] * 2
     if focus == 'plates':
@@ -510,6 +510,15 @@ def gen_program(rng, case, focus=None, allow_infeasible=True):
             maxadd = room / pl * pb if math.isfinite(room) else max(curq, 1e-4) * 2
             if maxadd > 0:
                 st = {'op': 'fill_to', 'dst': [t, sel], 'solvent': solv, 'q': spell(rng, curq + maxadd * rng.uniform(0.05, 0.6), base)}
+        elif kind == 'fill_big' and C:
+            # a container without a stated capacity has none: fill a recipe-created (or declared) unbounded container far
+            # beyond every capacity that appears in the program
+            unb = [n for n in C if not math.isfinite(cur[n].max_volume) and R.measure(cur[n].contents, 'L') < 1.5]
+            made = [n for n in unb if n[0] in 'sfn' and n[1:].isdigit()]
+            if made or unb:
+                t = rng.choice(made or unb)
+                st = {'op': 'fill_to', 'dst': [t, None], 'solvent': rng.choice(liqs), 'q': rng.choice(['2 L', '1.7 L', '2500 mL'])}
+                M.bucket('C08/fill_unbounded_container_beyond_every_capacity')
         elif kind == 'newc':
             created += 1
             init = [(rng.choice(liqs), f'{rng.randint(1, 50)} mL')]
